@@ -83,7 +83,8 @@ void BiCGStab(ParCSRMatrix* A, ParVector& x, ParVector& b, std::vector<double>& 
         A->mult(s, As);
         As_inner = As.inner_product(s);
         AsAs_inner = As.inner_product(As);
-        omega = As_inner / AsAs_inner;
+        // s = 0: the half step already solved the system exactly
+        omega = (AsAs_inner == 0.0) ? 0.0 : As_inner / AsAs_inner;
 
         // x_{i+1} = x_i + alpha_i * p_i + omega_i * s_i
         x.axpy(p, alpha);
